@@ -12,6 +12,7 @@ You can obtain one at http://mozilla.org/MPL/2.0/.
 #include <cassert>
 
 #include "libfive/render/brep/progress.hpp"
+#include "libfive/verif.hpp"
 
 namespace libfive {
 
@@ -33,6 +34,7 @@ void ProgressHandler::run()
 {
     assert(phases.size() > 0);
 
+    LIBFIVE_VERIF_POINT(verif::SITE_PROGRESS, verif::PROGRESS_THREAD_BEGIN, 0, this);
     progress(0.0f);
 
     float prev = 0.0f;
@@ -60,6 +62,7 @@ void ProgressHandler::run()
             prev = next;
         }
     }
+    LIBFIVE_VERIF_POINT(verif::SITE_PROGRESS, verif::PROGRESS_THREAD_END, 0, this);
 }
 
 void ProgressHandler::start(const std::vector<unsigned>& weights)
@@ -70,6 +73,7 @@ void ProgressHandler::start(const std::vector<unsigned>& weights)
         total_weight += weights[i];
     }
     current_phase = phases.end();
+    LIBFIVE_VERIF_POINT(verif::SITE_PROGRESS, verif::PROGRESS_START, weights.size(), this);
 }
 
 void ProgressHandler::nextPhase(uint64_t total) {
@@ -91,6 +95,7 @@ void ProgressHandler::nextPhase(uint64_t total) {
     }
     assert(current_phase != phases.end());
     current_phase->total = total;
+    LIBFIVE_VERIF_POINT(verif::SITE_PROGRESS, verif::PROGRESS_NEXT_PHASE, total, this);
 }
 
 void ProgressHandler::progress(double d)
@@ -100,6 +105,7 @@ void ProgressHandler::progress(double d)
 
 void ProgressHandler::finish()
 {
+    LIBFIVE_VERIF_POINT(verif::SITE_PROGRESS, verif::PROGRESS_FINISH, future.valid() ? 1 : 0, this);
     if (future.valid()) {
         // Set the flag to abort the worker thread
         done = true;
@@ -109,6 +115,7 @@ void ProgressHandler::finish()
 
         // Then wait for the thread to finish
         future.wait();
+        LIBFIVE_VERIF_POINT(verif::SITE_PROGRESS, verif::PROGRESS_FINISH_JOINED, 0, this);
     }
 }
 
